@@ -114,14 +114,14 @@ def entry_flow(chk, cfg, macro, tablefn, ident):
         tc = [x for x in p.calls if tcall.match(x[0])]
         if not tc:
             # parse error / non-ascii pre-check: must be a compile error
-            good = good and "to_compile_error" in show(p.ret)
+            good = good and ("to_compile_error" in show(p.ret) or "into_compile_error" in show(p.ret))
             continue
         res = tc[0][2]
         sw = [g for g in p.guards if g[0] == "sw" and g[1] == ("discr", res)]
         is_err = any((g[2] == "==" and g[3] == 1) or (g[2] == "notin" and 0 in g[3]) for g in sw)
         if is_err:
             seen_err = True
-            good = good and an.is_call(p.ret[2][0] if p.ret[0] == "call" and p.ret[2] else (), re.compile(r"^syn::Error::to_compile_error$"), (F(("downcast", res, 1, "Err"), "0"),))
+            good = good and an.is_call(p.ret[2][0] if p.ret[0] == "call" and p.ret[2] else (), re.compile(r"^syn::Error::(to|into)_compile_error$"), (F(("downcast", res, 1, "Err"), "0"),))
         else:
             g = [x for x in p.calls if x[0] == "seqarray::gen_seqarray"]
             if len(g) != 1:
@@ -173,6 +173,24 @@ def gen_literals(tier, seed):
             else:
                 s = "".join(rnd.choice(alpha) for _ in range(n))
             lits.append(("iupac", s))
+    if tier == "thorough":
+        # sparse literals: long runs of the zero-coded symbol with a few others (a generator that packs or skips whole words is
+        # only exercised by inputs whose words repeat or vanish)
+        for kind, zero, others in (("dna", "A", "CGT"), ("iupac", "-", "ACGTRYSWKMBDHVN")):
+            for _ in range(40):
+                n = rnd.randrange(1, 300)
+                lits.append((kind, "".join(rnd.choice(others) if rnd.random() < 0.04 else zero for _ in range(n))))
+    # word-structured literals: an all-zero storage word (32 x 'A' / 16 x '-') in every word position of 1..4-word literals, next to
+    # non-zero words, and an all-ones word (32 x 'T' / 16 x 'N'); with and without a partial last word
+    for kind, per, zero, one, fill in (("dna", 32, "A", "T", "CGTA"), ("iupac", 16, "-", "N", "CRYK")):
+        for nwords in (1, 2, 3, 4):
+            for special in (zero, one):
+                for z in range(nwords):
+                    for tail in (0, 1, per // 2):
+                        words = [(special * per) if w == z else "".join(fill[(i + w) % len(fill)] for i in range(per)) for w in range(nwords)]
+                        lits.append((kind, "".join(words) + fill[:1] * tail))
+        lits.append((kind, zero * (2 * per) + fill[0]))
+        lits.append((kind, fill[0] + zero * (3 * per)))
     seen = set()
     out = []
     for k, s in lits:
